@@ -9,6 +9,7 @@ import OFV.Proofs.C14Gates
 import OFV.Proofs.C14Ffft
 import OFV.Proofs.C14Givens
 import OFV.Proofs.C14FfftAction
+import OFV.Proofs.C14FfftGeneral
 
 namespace OFV.C14
 open OFV.Model.C14 OFV.Spec.C14
@@ -120,6 +121,36 @@ theorem slater_circuit_structure (n : Nat) (desc : List (List (Option (Nat × Na
 /-- non-vacuity: the full schedule for `n = 4` is such a description (and is not empty) -/
 example : slaterSchedulePairs 4 = [[(2, 3)], [(1, 2)], [(0, 1), (2, 3)], [(1, 2)], [(2, 3)]] := by decide
 
+/-! ## from the one-particle block to Fock space -/
+
+/-- Lift of the single-particle statements: if an invertible operator `U` conjugates every creation operator
+`a†_p` into `b†_p` (the conjugation identities the oracle checks for `p = 0 … n−1`, the gate theorems above, and
+`ffft_pow2_is_dft` on the one-particle sector), it conjugates every product `a†_{p1} ⋯ a†_{pk}` into
+`b†_{p1} ⋯ b†_{pk}` … (in any monoid of operators) -/
+theorem conjugation_lifts_to_products {A : Type} [Monoid A] (U Uinv : A) (h1 : Uinv * U = 1) (h2 : U * Uinv = 1)
+    (a b : Nat → A) (hconj : ∀ p, U * a p * Uinv = b p) (l : List Nat) :
+    U * (l.map a).prod * Uinv = (l.map b).prod := by
+  induction l with
+  | nil => simp [h2]
+  | cons p l ih =>
+    simp only [List.map_cons, List.prod_cons]
+    calc U * (a p * (l.map a).prod) * Uinv
+        = (U * a p * Uinv) * (U * (l.map a).prod * Uinv) := by
+          simp only [mul_assoc]
+          rw [← mul_assoc Uinv U, h1, one_mul]
+      _ = b p * (l.map b).prod := by rw [hconj, ih]
+
+/-- … and therefore its action on every Fock basis state `a†_{p1} ⋯ a†_{pk}|vac⟩` (a Slater determinant) is
+`b†_{p1} ⋯ b†_{pk} U|vac⟩`: a number-conserving Gaussian unitary is determined by its one-particle block and its
+action on the vacuum (a phase).  This is why the harness may check `U a†_p U⁻¹` for the `n` generators only,
+and how prepared Slater determinants follow from the conjugation identity. -/
+theorem conjugation_determines_fock_action {A : Type} [Monoid A] (U Uinv : A) (h1 : Uinv * U = 1) (h2 : U * Uinv = 1)
+    (a b : Nat → A) (hconj : ∀ p, U * a p * Uinv = b p) (l : List Nat) (vac : A) :
+    U * ((l.map a).prod * vac) = (l.map b).prod * (U * vac) := by
+  rw [← conjugation_lifts_to_products U Uinv h1 h2 a b hconj l]
+  simp only [mul_assoc]
+  rw [← mul_assoc Uinv U, h1, one_mul]
+
 /-! ## ffft: Cooley–Tukey index recursion (partial: exponents, not the unitary) -/
 
 /-- `ffft_spec_partial`.  For EVERY factor list (prime or not, any order) the index recursion of
@@ -166,6 +197,37 @@ theorem ffft_pow2_is_dft {R : Type} [CommRing R] (w : R) (M : Nat) (hneg : 1 ≤
   have := hd j hj
   rw [Nat.zero_add] at this
   rw [hops, this, Nat.sub_self, pow_zero, pow_one]
+  rw [Finset.sum_eq_single k]
+  · simp
+  · intro b _ hb; simp [hb]
+  · intro hk'; exact absurd (Finset.mem_range.mpr hk) hk'
+
+/-- `ffft_is_dft` — the gate action for EVERY register size `n ≥ 1` (prime, composite, power of two): over any
+commutative ring with an `n`-th root of unity `w` (`w^n = 1`, and `w^(n/2) = −1` when `n` is even), the operations
+emitted by `ffftOps n` — generalised Cooley–Tukey for the ascending prime factorisation: FSWAP shuffles
+`i ↦ (i % ny)·nx + i / ny`, `ny` recursive transforms of size `nx`, the inverse shuffle, `_TwiddleGate(x·y, n)`,
+`nx` transforms of size `ny` (`F0`, or a prime block whose action on coefficients is the size-`p` DFT — the
+specification of `bogoliubov_transform(fft_matrix(p))`, C11 / conjugation oracle), the shuffle again — map the
+coefficient vector of `a†_k` to `w^(k·j)` on `a†_j`. -/
+theorem ffft_is_dft {R : Type} [CommRing R] (w : R) (n : Nat) (hn : 1 ≤ n) (hw : w ^ n = 1)
+    (h2 : 2 ∣ n → w ^ (n / 2) = -1) (k j : Nat) (hk : k < n) (hj : j < n) :
+    runFfft (ringOps w) n (ffftOps n) (fun i => if i = k then 1 else 0) j = w ^ (j * k) := by
+  have hp := primeFactors_prod n n (Nat.le_refl n) hn
+  have hd := ffftRec_isDFT w n hw h2 (primeFactors n n) 0 (fun i => if i = k then (1 : R) else 0)
+    (primeFactors_pos n n) (by rw [hp])
+  rw [hp] at hd
+  obtain ⟨_, hd⟩ := hd
+  have := hd j hj
+  rw [Nat.zero_add] at this
+  have hops : runFfft (ringOps w) n (ffftOps n) (fun i => if i = k then (1 : R) else 0) j
+      = runFfft (ringOps w) n (ffftRec 0 n (primeFactors n n)) (fun i => if i = k then (1 : R) else 0) j := by
+    unfold ffftOps
+    by_cases h1 : n ≤ 1
+    · have : n = 1 := by omega
+      subst this
+      simp [primeFactors, ffftRec]
+    · rw [if_neg h1]
+  rw [hops, this, Nat.div_self (by omega), pow_one]
   rw [Finset.sum_eq_single k]
   · simp
   · intro b _ hb; simp [hb]
@@ -324,6 +386,29 @@ theorem quartic_generator_is_jw (w0 w1 w2 : GQ) :
     quarticGenerator w0 w1 w2 = Mat.add half (Mat.dagger half) := by
   rw [quarticComp0, quarticComp1, quarticComp2, quarticGenerator_lit]
   unfold e9_6 e10_5 e12_3
+  mat_unfold
+  mat_entries
+
+/-- `DoubleExcitationGate` as a generator statement: its generator `G = −|0011⟩⟨1100| − h.c.` is the Jordan–Wigner
+image (Spec, four modes) of `−(a†_2 a†_3 a_1 a_0 + h.c.)`; the eigen-components written in the source today
+(extracted on every run; half-turn exponents `0, −1, +1`) are a complete family of orthogonal projectors with
+`G = P₋ − P₊`, and the Model unitary is `P₀ + e^{−iπt} P₋ + e^{+iπt} P₊` (`(c, s) = (cos πt, sin πt)`), i.e.
+`exp(−iπt·G)` on the spectrum.  (The CNOT / `Z**(1/8)` decomposition lives in `ℚ(ζ₁₆)`: oracle only.) -/
+theorem double_excitation_spectral (c s : Rat) :
+    OFV.Generated.C14.doubleExcitationEig = [(0, dxP0), (-1, dxPm), (1, dxPp)] ∧
+    doubleExcitationGenerator =
+      Mat.smul (-1) (Mat.add (opMat4 [([(2, 1), (3, 1), (1, 0), (0, 0)], 1)])
+        (Mat.dagger (opMat4 [([(2, 1), (3, 1), (1, 0), (0, 0)], 1)]))) ∧
+    Mat.add (Mat.add dxP0 dxPm) dxPp = Mat.identity 16 ∧
+    Mat.mul dxP0 dxP0 = dxP0 ∧ Mat.mul dxPm dxPm = dxPm ∧ Mat.mul dxPp dxPp = dxPp ∧
+    Mat.mul dxP0 dxPm = zero16 ∧ Mat.mul dxP0 dxPp = zero16 ∧ Mat.mul dxPm dxPp = zero16 ∧
+    doubleExcitationGenerator = Mat.add dxPm (Mat.smul (-1) dxPp) ∧
+    doubleExcitation c s =
+      Mat.add (Mat.add dxP0 (Mat.smul (cis c (-s)) dxPm)) (Mat.smul (cis c s) dxPp) := by
+  refine ⟨dxEig_eq, by decide +kernel, by decide +kernel, by decide +kernel, by decide +kernel, by decide +kernel,
+    by decide +kernel, by decide +kernel, by decide +kernel, by decide +kernel, ?_⟩
+  rw [doubleExcitation_lit]
+  unfold dxP0 dxPm dxPp
   mat_unfold
   mat_entries
 
